@@ -1,7 +1,7 @@
 (* C18 -- board bring-up reaches an in-sync shell for any console timing or times out duly.
    Property theorems only; proofs are in ProofC18.v over the model Boot.v (AskfirstInitializer + LinuxBootLogin).
    The console is ARBITRARY in these theorems: any stages, any fragmentation, any timing.  Times in 2^-10 s. *)
-From TV Require Import Base Utf8 Regex Channel ChannelLemmas ProofC06 Hush Session Boot ProofC18.
+From TV Require Import Base Utf8 Regex Channel ChannelLemmas ProofC06 Hush Session Boot ProofC18 ProofC18b.
 
 (* (1) with a boot timeout T configured, whatever the console does -- trickles, stalls, prints garbage, never shows
        a prompt -- the whole Linux stage (askfirst banner, login, optional delay, password) ends no later than T after
@@ -51,3 +51,15 @@ Theorem C18_uboot_stage_deadline :
   (nowc c' <= nowc c + T + 2 * HALF)%Z /\ never_blocks r.
 Proof. exact uboot_deadline. Qed.
 Print Assumptions C18_uboot_stage_deadline.
+
+(* (2b) the password is sent only in response to a password prompt: on a console where the wait for that prompt
+        never returns, the login stage writes at most the Enter after the login delay and the user name *)
+Theorem C18_password_only_after_its_prompt :
+  forall cfg start sts c r c' sts',
+  slow c = None ->
+  (forall tmo cx out cy, read_until_prompt (Some (SLit PASSWORD_P)) tmo cx <> (Ret out, cy)) ->
+  login_step cfg start sts c = (r, c', sts') ->
+  exists pre u, wr (io c') = wr (io c) ++ pre ++ u /\
+    (pre = [] \/ pre = [CR]) /\ (u = [] \/ u = utf8_enc (b_user cfg) ++ [CR]).
+Proof. exact password_only_after_prompt. Qed.
+Print Assumptions C18_password_only_after_its_prompt.
